@@ -19,6 +19,8 @@ ASSUMPTIONS = [
 
 def build(policy):
     s = core.sdn()
+    popped = policy.endswith("+pop")
+    policy = policy.split("+")[0]
     s.namespace_manager.default = policy
     ids = itertools.count()
 
@@ -49,6 +51,13 @@ def build(policy):
                 el["k"] = kv
         c.wires[0].connect_pin(p.pins[0])
         c.wires[0].connect_pin(x.pins[leaf.ports[0].pins[0]])
+        if nm_ == "ab":
+            p.lower_index = 4     # bits are named ab[4], ab[5]
+            c.lower_index = 4
+        if popped and nm_ in ("A", "ab"):
+            # a history: one of the two naming keys was popped again (the other must stay findable)
+            for el in (p, c, x):
+                el.pop("EDIF.identifier" if nm_ == "A" else ".NAME")
     mid = tagit(lab.create_definition(name="a"), "v")
     mid.create_child(name="a", reference=da)
     mid.create_child(name="ab", reference=da)
@@ -145,6 +154,7 @@ def worker(case):
     s = core.sdn()
     probs = []
     n, h = build(policy)
+    policy = policy.split("+")[0]
     root = roots(n, h)[rname]
     fn = getattr(s, fname)
     has_pat, selections, has_rec, hier = FUNCS[fname]
@@ -198,6 +208,7 @@ def worker(case):
                 for v in vals[:9]:
                     if v:
                         pats |= {v, v.swapcase(), v[:1] + "*", v[:-1] + "?", "?" * len(v)}
+                pats |= set([v for v in vals if "[" in v][:8])   # names carrying a bus index
                 pats |= {"zz", "*", "a*", "A*"}
                 single = sorted(pats)
                 multi = [("a", "a*"), ("a*", "a"), ("a", "A"), ("a", "a"), ("zz", "a"), ("r[0]", "a*"), ("a*", "r[0]"), ("r[0]", "r0")]
@@ -245,7 +256,7 @@ ROOTS = ("netlist", "library", "definition", "instance", "port", "cable", "inner
 
 def cases(tier):
     out = []
-    for policy in ("DEFAULT", "EDIF"):
+    for policy in ("DEFAULT", "EDIF", "DEFAULT+pop", "EDIF+pop"):
         for fname in FUNCS:
             for rname in ROOTS:
                 for lookup_on in (True, False):
